@@ -42,7 +42,9 @@ THEOREMS = [
     "HedVerif.C01.injected_misplaced_top_level",
     "HedVerif.C01.injected_duplicated_unique",
     "HedVerif.C01.injected_repeated",
-    "HedVerif.C01.valid_no_error_partial",
+    "HedVerif.C01.valid_no_error",
+    "HedVerif.C01.no_error_implies_clean",
+    "HedVerif.C01.no_error_iff_clean",
     "HedVerif.C01.issue_indices_in_tag",
     "HedVerif.C01.issue_char_index_in_text",
     "HedVerif.C01.Tiny.def_value_index_counterexample",
@@ -59,7 +61,8 @@ FLAGS = [("ext", "extensionAllowed"), ("tv", "takesValue"), ("rc", "requireChild
 NONASCII = ["\u00e9", "\u4e2d", "\u00f1", "\u20ac", "\u2192", "\u00a0", "\u200b", "\u0085", "\u3000", "\U0001F600"]
 # the declared definitions: (name, takes a value, text of the content group's children; "" = no content group)
 DEF_LIST = [("A", False, "Red"), ("B", False, "Blue, (Green)"), ("C", True, "Label/#"), ("D", True, "Item-count/#"),
-            ("U", True, "Distance/# m"), ("E", False, ""), ("P", True, "Label/aaaaaaaaaaaaaaaaaaaaaaaa#")]
+            ("U", True, "Distance/# m"), ("E", False, ""), ("P", True, "Label/aaaaaaaaaaaaaaaaaaaaaaaa#"),
+            ("K", True, "Keyboard-key/#")]       # K: the placeholder tag has neither unit nor value class
 SPEC = {  # the property statement's table: injected rule violation -> published code
     "unknown_tag": "TAG_INVALID", "forbidden_extension": "TAG_EXTENSION_INVALID",
     "forbidden_extension_term": "TAG_EXTENSION_INVALID", "missing_required_child": "TAG_REQUIRES_CHILD",
@@ -163,7 +166,11 @@ FIXTURES = [
     "Def/C/x1", "Def/C/x$1", "Def/C/x 1", "Def/D/3", "Def/D/abc", "Def/U/3 m", "Def/U/3", "Def/U/3 zz", "Def/U/abc m", "Def/U/3$ m",
     "(Def-expand/C/x1, (Label/x1))", "(Def-expand/C/x1, (Label/x2))", "(Def-expand/A, (Red))", "(Def-expand/A, (Blue))",
     "(Def-expand/B, ((Green), Blue))", "(Def-expand/B, (Blue))", "((Red), Def-expand/A)", "(Def-expand/A)", "(Def-expand/A, Red)",
-    "Def/P/x$", "Def/P/x", "Def/P/x$y$", "(Def-expand/P/x, (Label/aaaaaaaaaaaaaaaaaaaaaaaax))", "Def/C/a$b$c", "Def/U/3$ m", "Def/D/3$",
+    "(Delay/2 s, (Red))", "(Delay/abc s, (Red))", "(Delay/2, (Red))", "(delay/2 ms, (Red))", "(Delay/2 zz, (Red))", "(Delay/#, (Red))",
+    "(Red, Delay/1.5 s)", "Delay/2 s, (Delay/3 s, (Red)), Blue", "(Delay/2 s, Delay/3 s, (Red))", "((Delay/2 s, (Red)))", "(Delay/1e3 ms, Onset, Def/A)",
+    "(Delay/2 minutes, (Red))", "(Delay/2 hour, (Red))", "(Delay/.5 day, (Red))", "(Delay/2 Ms, (Red))", "(Delay/ s, (Red))", "(Delay/s 2, (Red))", "(Delay/2  s, (Red))", "(Delay/inf s, (Red))", "(Delay/1_0 s, (Red))", "(Delay/nan, (Red))", "(Delay/2\t s, (Red))",
+    "Def/K/a", "Def/K/a$b", "Def/K/a b.c", "(Def-expand/K/x, (Keyboard-key/x))", "(Def-expand/K/x@, (Keyboard-key/x@))", "Def/K/#", "Def/K",
+    "Def/K/x:y", "Def/K/é", "(Def/K/F1, Onset)", "Def/P/x$", "Def/P/x", "Def/P/x$y$", "(Def-expand/P/x, (Label/aaaaaaaaaaaaaaaaaaaaaaaax))", "Def/C/a$b$c", "Def/U/3$ m", "Def/D/3$",
     "Def/E", "(Def-expand/E)", "(Def-expand/E, (Red))", "Def/E/1", "Def/A$", "Def/A b", "Def/C/#", "Def/C/", "Def/C//x", "Def/c/X1", "def/a",
     "(Def-expand/A, (Red)), (Def-expand/A, (Red))", "(Def-expand/A, (Red), (Red))", "(Def-expand/A, Def-expand/B, (Red))",
     "(Def/D/3, Onset)", "(Def/A, Onset, Red)", "(Def/A, Def/B, Onset)", "(Onset, (Def-expand/A, (Red)))", "(Def/A, Offset, (Red))",
@@ -329,6 +336,23 @@ def canon_impl(issue):
     return [kind, issue["code"], int(issue["severity"]), span, sub, kw.get("char_index"), txt]
 
 
+def impl_items(HedString, schema, text, dd):
+    """what `split_delay_tags` reads: str(child) of every top-level child, and the Delay value of a group that holds one"""
+    hs = HedString(text, schema, dd)
+    found = {id(g): t for t, g in hs.find_top_level_tags({"delay"})}
+    out = []
+    for ch in hs.children:
+        d = None
+        if id(ch) in found:
+            try:
+                val = found[id(ch)].value_as_default_unit()
+                d = "absent" if val is None else float(val)
+            except Exception as e:
+                d = "raises"
+        out.append([str(ch), d])
+    return out
+
+
 def canon_model(i):
     txt = None if i["txt"] is None else "".join(map(chr, i["txt"]))
     return [i["kind"], i["code"], i["sev"], i["span"], i["sub"], i["chr"], txt]
@@ -484,7 +508,8 @@ class Gen:
 
     def def_value(self, name):
         self.uid += 1
-        return {"C": f"nm{self.uid}", "D": self.rng.choice(["3", "12", "0.5"]), "U": self.rng.choice(["3", "2.5"]), "P": f"v{self.uid}"}.get(name)
+        return {"C": f"nm{self.uid}", "D": self.rng.choice(["3", "12", "0.5"]), "U": self.rng.choice(["3", "2.5"]), "P": f"v{self.uid}",
+                "K": self.rng.choice([f"k{self.uid}", f"F{self.uid}", f"k-{self.uid}", f"k {self.uid}.5"])}.get(name)
 
     def def_tag(self, base, name, value=None):
         nm = self.rng.choice([name, name, name.lower()])
@@ -498,7 +523,7 @@ class Gen:
             return Sealed([tag])
         content = {"A": ["Red"], "B": self.rng.choice([["Blue", ["Green"]], [["Green"], "Blue"]]), "C": [f"Label/{value}"],
                    "D": [f"Item-count/{value}"], "U": [f"Distance/{value} m"],
-                   "P": [f"Label/aaaaaaaaaaaaaaaaaaaaaaaa{value}"]}[name]
+                   "P": [f"Label/aaaaaaaaaaaaaaaaaaaaaaaa{value}"], "K": [f"Keyboard-key/{value}"]}[name]
         g = [tag, Sealed(content)]
         if self.rng.random() < 0.3:
             g.reverse()
@@ -770,7 +795,7 @@ def value_class_cases(g):
 def fuzz_strings(rng, g, n):
     v = g.v
     specials = list("#{}[]~:/ ,()$.-_+^") + ["\t", "\n", " ", ", ", ",", "(", ")", "/"] + NONASCII + ["\x07", "\x1c"]
-    frags = ["Def/A", "Def/C/x", "Def/D/3", "Def/U/3 m", "Def/B/x", "Def/C", "Def-expand/A", "(Def-expand/A, (Red))", "(Def-expand/C/x, (Label/x))",
+    frags = ["(Delay/2 s, (Red))", "Delay/3 ms", "Delay/x s", "delay/2", "Def/K/a", "Def/K/a$", "Def/K/F 1", "Def/A", "Def/C/x", "Def/D/3", "Def/U/3 m", "Def/B/x", "Def/C", "Def-expand/A", "(Def-expand/A, (Red))", "(Def-expand/C/x, (Label/x))",
              "(Def/A, Onset)", "(Def/B, Offset)", "(Def/A, Inset, (Red))", "Def/Zz", "Def", "Def-expand", "Definition", "Onset", "Offset", "Inset", "Duration", "Delay", "Event-context", "n/a",
              "3", "3 s", "ms", "abc", "#", "sc:", "x", "Label", "ID", "Red", "Blue", "Item", "Object", "Xyz"]
     out = []
@@ -891,8 +916,11 @@ def compare(ctx, stream, case, m, impl, exc):
             ctx.count("index-theorem:pair outside its tag (Def value on the unchanged code, see fixes/C01_def_value_char_index.diff)")
         else:
             ctx.disagree("index pair inside its tag (C01.issue_indices_in_tag)", case, False, True)
+    if m.get("unmodelled_old"):
+        ctx.count("unmodelled:before this round (Def of a definition whose placeholder tag has no unit/value class)")
     if m["unmodelled"]:
         ctx.count(f"{stream}:skipped-unmodelled")
+        ctx.count("unmodelled:now: " + str(m.get("why")))
         return False
     if exc is not None or m["raises"]:
         ctx.count(f"{stream}:skipped-impl-raises" if exc is not None else f"{stream}:skipped-model-says-raises")
@@ -973,6 +1001,19 @@ def run_schema(ctx, name, n_grammar, n_fuzz, sweep):
         ctx.count(f"{stream}:cases")
         if compare(ctx, stream, case, m, impl, exc):
             ctx.count(f"{stream}:compared")
+        if m.get("items") is not None:
+            # Validate.delayItems = top-level children and Delay values of the real HedString (closes Tabular's Oracle.items)
+            mine = [["".join(map(chr, it["str"])), it["delay"]] for it in m["items"]]
+            theirs = impl_items(HedString, schema, text, dd if needs_dict else None)
+            ok = len(mine) == len(theirs) and all(a[0] == b[0] and (a[1] is None and b[1] is None or a[1] == "unsure" and b[1] is not None
+                                                                     or (a[1] is not None and b[1] is not None and c11.same_value(a[1], b[1])))
+                                                  for a, b in zip(mine, theirs))
+            ctx.count("delay-items:compared")
+            for it in mine:
+                if it[1] is not None:
+                    ctx.count("delay-items:value " + ("number" if isinstance(it[1], dict) else it[1]))
+            if not ok:
+                ctx.disagree("Validate.delayItems = HedString children / value_as_default_unit", case, mine[:6], theirs[:6])
         if any(x in text.casefold() for x in ("def/", "def-expand/")):
             ctx.count(f"{stream}:cases-with-Def")
         if stream == "fuzz":
